@@ -44,7 +44,11 @@ class MatContract(Contract):
     N = 3
     def native_init(self, name, arr, cfg):
         if name in ('A_data',) or (name == 'x_data' and self.qual.endswith('_inv')):
-            for p in range(arr.shape[1]): arr[0, p] = arr[0, p] + (2.5 + 0.5 * p) * numpy.eye(arr.shape[2])[::-1 if p % 2 else 1]
+            for p in range(arr.shape[1]):
+                # dominant entries on the diagonal / the anti-diagonal (one row swap) / a cyclic row shift (a pivoting permutation that is
+                # not its own inverse: P and P^T differ)
+                E = numpy.eye(arr.shape[2]); E = (E, numpy.roll(E, 1, axis=0), E[::-1])[p % 3]
+                arr[0, p] = arr[0, p] + (2.5 + 0.5 * p) * E
         if name == 'out.0' and self.qual.endswith('_inv'): arr[...] = 0.
 
 
@@ -208,7 +212,7 @@ class SolveNonUTPMA(MatContract):
     cfgs = {'distinct': {}}
     def val(self, c, j): return M.dot(M.f_inv(scalar_of(c, 'A_data').t), c.pre['x_data'][j])
     def cell_shapes(self, cfg): return {'x_data': (3, 2), 'out': (3, 2)}
-    def native_scalars(self, cfg, rng): return {'A_data': numpy.array([round(rng.uniform(-1, 1) * 8) / 8 for _ in range(9)]).reshape(3, 3) + 2.5 * numpy.eye(3)[::-1]}
+    def native_scalars(self, cfg, rng): return {'A_data': numpy.array([round(rng.uniform(-1, 1) * 8) / 8 for _ in range(9)]).reshape(3, 3) + 2.5 * (numpy.eye(3)[::-1] if rng.random() < 0.4 else numpy.roll(numpy.eye(3), rng.choice((1, 2)), axis=0))}
     def oracle(self, inp, scal, cfg): return {'out': [numpy.linalg.solve(scal['A_data'], v) for v in inp['x_data']]}
     def ensures(self, c):
         o = c.cur('out'); return [('out[d] = solve(A, x[d])', c.forall(0, c.D, lambda j: o[j] == self.val(c, j)))]
